@@ -2641,7 +2641,7 @@ fn main() {
     let args = Args::parse();
     let mut rep = Report::new("C12", &args);
     rep.max_samples = 12;
-    rep.rule = "cases: (a) random DebugInfo push sequences with all lookups 0..max+2 [non-trivial: >= 3 pushes]; (b) format_source_excerpt on random texts x random spans incl. out-of-guard ones [non-trivial: >= 2 lines or outside the guard]; (c) generated programs with a single-line fault planted at a known line inside 0-4 nested calls (call line = line of the callee token; call expressions may span lines) after random preceding constructs [non-trivial: >= 1 call level or >= 8 lines]; levels of the call chain may run inside callbacks of core-library functions (eager fold/any/all/find/position; lazy each/keep with their consumer), predicted by Trace.predictSegs; (d) one-token syntactic breaks of such programs with an unambiguous first bad token, and end-of-input cuts with at most one trailing line break (expected line = last line with text); (e) programs with single- and multi-line debug expressions; (f) a fault inside a function of an imported module (two chunks with their own texts and paths), called through 1-3 call sites in module and main script. The language guide does not say which line a failing multi-line expression reports, so planted faults are single-line expressions and for multi-line call expressions only the start line (callee token) is fixed, the reported span must stay inside the call expression. (g) planted-fault kinds added for seeded C12-mut1..3: a failing node at every position of a (mostly multi-line) chain `root` / `.id` / `.\"str\"` with `[i]`, `(call)` and `?` suffixes, with and without `?` after each node, also as assignment target (expected line = the line of the access the node is attached to), call sites that are nodes of multi-line chains, failing operations on registers only (locals / parameters) so that the fault is the first instruction of its statement, functions that are generators whose key statement follows 0-3 `yield`s and whose call site is a consumer (for loop, next(), to_tuple/to_list/count/consume/last, lazy adaptors, unpacking, iterator.next, match) predicted as one more interpreter entry by Trace.predictSegs, the fault itself inside a core-library callback (first instruction of the callback); (h) K1 on real chunks: for generated chains the spans of the Access/AccessString/Index/Call/JumpIfNull instructions in the compiled chunk's source map vs SrcMap.compile on the chain's nesting structure and vs the line of each node [non-trivial: >= 3 nodes]; (i) breaks inside multi-line bracketed constructs (call args, chained calls, list, tuple, map, parameter list, nested, index on one line): element after a missing comma, `then`/`else`, `=`, mismatched closer, on a line of their own or after the previous element, after 0-3 well-formed elements (expected line = the bad token's line; for `=` directly after a literal on the previous line the assignment's target is the offending token); (j) debug statements directly after a `yield` in generators consumed completely, debug of a local/parameter (no instruction before the debug instruction). distinct = distinct request/program texts".into();
+    rep.rule = "cases: (a) random DebugInfo push sequences with all lookups 0..max+2 [non-trivial: >= 3 pushes]; (b) format_source_excerpt on random texts x random spans incl. out-of-guard ones [non-trivial: >= 2 lines or outside the guard]; (c) generated programs with a single-line fault planted at a known line inside 0-4 nested calls (call line = line of the callee token; call expressions may span lines) after random preceding constructs [non-trivial: >= 1 call level or >= 8 lines]; levels of the call chain may run inside callbacks of core-library functions (eager fold/any/all/find/position; lazy each/keep with their consumer), predicted by Trace.predictSegs; (d) one-token syntactic breaks of such programs with an unambiguous first bad token, and end-of-input cuts with at most one trailing line break (expected line = last line with text); (e) programs with single- and multi-line debug expressions; (f) a fault inside a function of an imported module (two chunks with their own texts and paths), called through 1-3 call sites in module and main script. The language guide does not say which line a failing multi-line expression reports, so planted faults are single-line expressions and for multi-line call expressions only the start line (callee token) is fixed, the reported span must stay inside the call expression. (g) planted-fault kinds added for seeded C12-mut1..3: a failing node at every position of a (mostly multi-line) chain `root` / `.id` / `.\"str\"` with `[i]`, `(call)` and `?` suffixes, with and without `?` after each node, also as assignment target (expected line = the line of the access the node is attached to), call sites that are nodes of multi-line chains, failing operations on registers only (locals / parameters) so that the fault is the first instruction of its statement, functions that are generators whose key statement follows 0-3 `yield`s and whose call site is a consumer (for loop, next(), to_tuple/to_list/count/consume/last, lazy adaptors, unpacking, iterator.next, match) predicted as one more interpreter entry by Trace.predictSegs, the fault itself inside a core-library callback (first instruction of the callback); (h) K1 on real chunks: for generated chains the spans of the Access/AccessString/Index/Call/JumpIfNull instructions in the compiled chunk's source map vs SrcMap.compile on the chain's nesting structure and vs the line of each node [non-trivial: >= 3 nodes]; (i) breaks inside multi-line bracketed constructs (call args, chained calls, list, tuple, map, parameter list, nested, index on one line): element after a missing comma, `then`/`else`, `=`, mismatched closer, on a line of their own or after the previous element, after 0-3 well-formed elements (expected line = the bad token's line; for `=` directly after a literal on the previous line the assignment's target is the offending token); (j) debug statements directly after a `yield` in generators consumed completely, debug of a local/parameter (no instruction before the debug instruction). (k) second wave (observations + seeded C12-mut4..6): every planted / debug / chain program is run under the default CompilerSettings and under one other combination of the flags that change code generation (export_top_level_ids, enable_type_checks; faults that are type checks keep them enabled) with type hints in every position (parameters, return type, let, for, match arm, catch) among the fillers and as function-literal arguments of chain calls; piped calls one per line as call sites; every ErrorKind of the bytecode compiler that source text can raise, with the offending construct on a later line than its statement's start (table checked against the enum in compiler.rs), and the parser's else-not-in-last-arm errors; several bad tokens on different lines (first one expected): repeated `key as name` rebinds in a map on the right-hand side, repeated stray closers / orphan keywords, a second bad token in a bracketed construct; callbacks of every lazy adaptor with an error frame (each, keep, take-while, intersperse-with; table checked against adaptors.rs) consumed directly and through koto.copy / koto.deep_copy / cycle, generators consumed through copies / cycle / flatten. distinct = distinct request/program texts".into();
     let drv = Driver::spawn(&args.driver);
     let open: Vec<String> = rep.known_open().iter().filter_map(|e| e["id"].as_str().map(|s| s.to_string())).collect();
     let mut cx = Ctx { rep, drv, k_fail: 0, d_fail: 0, known_hits: Default::default(), open, verbose: args.replay.is_some(), mod_counter: 0, attribute: true };
@@ -2734,6 +2734,7 @@ fn main() {
 
     cx.rep.note("mutation pilot (2026-09-26, scratch copy of /repo outside /repo and /verif, quick tier, seed 1; see requests/C12.md): get_source_span `<` for `<=` -> K:C12:SrcMap.lookup + C12:trace-lines; trace pushed outermost first -> C12:trace-lines; pop_span dropped at each of 11 sites of compiler.rs (nested fn args, assign target, type hints, catch arg/block, map entry, match arm, for iterable) -> C12:trace-lines each; debug prefix from span.end -> C12:debug-prefix; excerpt underline off by one -> K:C12:Excerpt.render; DebugInfo::push merging on equal start only -> K:C12:SrcMap.lookup; unchanged copy -> exit 0");
     cx.rep.note("seeded changes (2026-09-26, tools/mutcheck.sh quick seed 1, and per family with --only=<family> against a scratch copy, corpus off): C12-mut1 (compile_chain span push skipped before a final `?`) -> C12:trace-lines on 38 planted chain programs, C12:chain-node-line on 283 + K:C12:SrcMap.compile on 36 of 1500 chains; C12-mut2 (instruction_ip set in push_frame only; patch rebased in requests/C12-mut2-rebased.diff) -> C12:trace-lines on 183 planted programs (fault directly after a yield), C12:debug-prefix on 105 of 1000 debug programs; C12-mut3 (parse_parenthesized_args peeks the closer) -> C12:compile-error-line on 132 of 3000 broken variants; unchanged tree -> exit 0 for seeds 1-8 quick and seed 1 thorough");
+    cx.rep.note("seeded changes, second wave (2026-09-26, per family with --only=<family> against a scratch copy, corpus off, quick seed 1): C12-mut4 (compile_assert_type leaks a span when type checks are disabled) -> C12:trace-lines / C12:function-range-span on 203 of 8000 planted runs, K:C12:SrcMap.compile on 122 of 3000 chain runs; C12-mut5 (register_error_if_not_lhs keeps the last error) -> C12:compile-error-line on 67 of 3000 broken variants; C12-mut6 (Each::make_copy takes the error frame of the helper VM) -> C12:trace-lines on 174 planted runs");
     let kh = cx.known_hits.clone();
     for (id, n) in kh {
         cx.rep.bump_by(&format!("attributed_to_{id}"), n);
